@@ -14,6 +14,7 @@ pkg=$(grep -m1 '^package ' $demo | awk '{print $2}' | sed 's/_test$//')
 case $pkg in nfs|simple|kvs|dir|inode|fstxn|alloctxn|cache|dcache|shrinker|super|fh|nfstypes) ;; *) pkg=nfs;; esac
 tag=""; grep -q '^//go:build verif' $demo && tag="-tags verif"
 name=$(grep -o 'func Test[A-Za-z0-9_]*' $demo | head -1 | sed 's/func //')
+grep -q 'func TestSeeded' $demo && name=TestSeeded   # all the demonstration's tests (controls included)
 cd $T
 # without the patch: demo passes
 cp $demo $pkg/seeded_demo_test.go
